@@ -17,6 +17,8 @@
     validation of the model's flock assumption).
 
 One model step (coq/theories/FLock.v) per gate; canonical op codes see OPCODES.
+Line-level runs (flock_drv.run_line) add, from outside, a gate at every source line of aiuti/filelock.py
+(sys.settrace in the managed threads) and, with ``env.gate_mklock``, at threading.Lock()/RLock() construction.
 Patch with ``env.install()`` / ``env.restore()`` (module attributes of aiuti.filelock only).
 """
 from __future__ import annotations
@@ -65,6 +67,7 @@ class Env:
         self.holders = {}             # real fd -> 'EX' | 'SH'
         self.kernel_mismatch = []
         self.ntl = 0
+        self.gate_mklock = False      # line-level runs: constructing a thread lock is a gate of its own
         self.saved = None
         self.threading = _Threading(self)
         self.time = _Time(self)
@@ -155,10 +158,14 @@ class _Threading:
         return getattr(real_threading, name)
 
     def Lock(self):
+        if self.env.gate_mklock:
+            self.env.gate('mklock')
         self.env.ntl += 1
         return gate.GLock(self.env.ctl, name=f'tl{self.env.ntl - 1}')
 
     def RLock(self):
+        if self.env.gate_mklock:
+            self.env.gate('mklock')
         self.env.ntl += 1
         return gate.GRLock(self.env.ctl, name=f'tl{self.env.ntl - 1}')
 
